@@ -122,8 +122,27 @@ def cases(ctx, n):
         out.append((stages.URIS[0], root, ctx.rng.choice(stages.PREFIXES), gen.any_text(ctx.rng, root, unique=True)))
     return out
 
+def attr_token_docs():
+    """attribute values are payload too: on every construct that takes an attribute list, every attribute name the code gives a default or a
+    meaning of its own (name, by, class, title, refersTo, status, startQuote ...) with distinct tokens as values - each token must come out
+    exactly once, in the attribute the markup assigns it to or anywhere else, never be dropped in favour of a default"""
+    names = ['name', 'class', 'title', 'refersTo', 'status', 'startQuote', 'period', 'for', 'as', 'language']      # (not by: it is derived for speech groups and compared nowhere)
+    shapes = [('debate', 'DEBATESECTION%s 7 - tok90z\n  SPEECH\n    FROM tok91z\n    tok92z\n'), ('debate', 'DEBATESECTION\n  SPEECH%s\n    FROM tok91z\n    tok92z\n'),
+              ('debate', 'ADDRESS%s\n  tok92z\n'), ('act', 'PART%s 1 - tok90z\n  tok92z\n'), ('act', 'SEC 1\n  P%s tok92z\n'), ('doc', 'ITEMS%s\n  ITEM%s (a)\n    tok92z\n'),
+              ('doc', 'TABLE%s\n  TR%s\n    TC%s\n      tok92z\n'), ('statement', 'QUOTE%s\n  tok92z\n'), ('act', 'x\nSCHEDULE%s tok90z\n  tok92z\n'),
+              ('act', 'CROSSHEADING%s tok90z\n'), ('doc', 'BLOCKS%s\n  tok92z\n'), ('doc', 'BULLETS%s\n  * tok92z\n'), ('judgment', 'INTRODUCTION%s\n  tok92z\n'),
+              ('doc', 'tok92z {{abbr%s tok93z}} {{term%s tok94z}} {{inline%s tok95z}} {{+%s tok96z}}\n')]
+    out = []
+    for root, shape in shapes:
+        k = shape.count('%s')
+        for i in range(k):
+            for a, nm in enumerate(names):
+                at = '{%s tok%dz|%s tok%dz}' % (nm, 10 + a, names[(a + 3) % len(names)], 30 + a)
+                out.append((stages.URIS[0], root, '', shape % tuple(at if j == i else '' for j in range(k))))
+    return out
+
 def correspondence(ctx):
-    cs = cases(ctx, ctx.n(700, 40000))
+    cs = cases(ctx, ctx.n(700, 40000)) + attr_token_docs()
     ctx._docs = cs
     stages.stage_e2e(ctx, cs)
     p = impl.parser()
